@@ -38,11 +38,14 @@ def build(repo):
         b = 'length == %d (bits symbolic)' % n
         u.harness('bitvec::verif_bitvec::l%d::bytes_roundtrip' % n, 'bitvec::BitVector::to_bytes/from_bytes::roundtrip[len=%d]' % n, kind='bounded', bound=b, tier=t, timeout=900)
         u.harness('bitvec::verif_bitvec::l%d::filled_not_push' % n, 'bitvec::BitVector::{filled,not,push,get}::consistent[len=%d]' % n, kind='bounded', bound=b, tier=t, timeout=900)
-    u.functions = [('zigzag_encode, zigzag_decode, DeltaEncoding::{encode, encode_signed, decode, decode_signed, to_bytes, from_bytes}', 'crates/grafeo-core/src/storage/delta.rs'),
+    u.harness('codec::verif_codec::selector_sound_len8', 'codec::CodecSelector::select_for_integers::chosen_codec_precondition_holds[len=8]', kind='bounded', bound='input length == 8 (values symbolic)', tier='quick', timeout=900)
+    u.harness('codec::verif_codec::selector_sound_len9', 'codec::CodecSelector::select_for_integers::chosen_codec_precondition_holds[len=9]', kind='bounded', bound='input length == 9 (values symbolic)', tier='thorough', timeout=1500)
+    u.functions = [('CodecSelector::select_for_integers', 'crates/grafeo-core/src/storage/codec.rs'),
+                   ('zigzag_encode, zigzag_decode, DeltaEncoding::{encode, encode_signed, decode, decode_signed, to_bytes, from_bytes}', 'crates/grafeo-core/src/storage/delta.rs'),
                    ('BitPackedInts::{bits_needed, pack, pack_with_bits, unpack, get, to_bytes, from_bytes}, DeltaBitPacked::{encode, decode, len, is_empty}', 'crates/grafeo-core/src/storage/bitpack.rs'),
                    ('BitVector::{from_bools, filled, not, push, get, to_bytes, from_bytes}', 'crates/grafeo-core/src/storage/bitvec.rs'),
                    ('zigzag_encode, zigzag_decode (second copy)', 'crates/grafeo-core/src/storage/runlength.rs')]
-    u.not_covered = ['BitPackedInts::{to_bytes, from_bytes} for non-empty blocks (Kani harness timed out at length 1: dropped per the < 120 s rule)', 'DictionaryEncoding (hash map of strings), CodecSelector, compressed property columns, adjacency cold chunks, succinct structures (feature off), epoch_store (adapter chains / hash maps / floats)',
+    u.not_covered = ['BitPackedInts::{to_bytes, from_bytes} for non-empty blocks (Kani harness timed out at length 1: dropped per the < 120 s rule)', 'DictionaryEncoding (hash map of strings), TypeSpecificCompressor (dispatch over the codecs), select_for_strings, compressed property columns, adjacency cold chunks, succinct structures (feature off), epoch_store (adapter chains / hash maps / floats)',
                      'RunLengthEncoding::{to_bytes, from_bytes, from_runs} beyond length 1, RunLengthIterator::next, SignedRunLengthEncoding (Kani harnesses timed out: dropped)']
     u.assumptions = ['bounded harnesses (one per concrete input length <= 3 or 4) are stand-ins for the iterator-adapter encoders and byte serialisers; they are reported separately and never counted as proved']
     return u
